@@ -31,19 +31,27 @@ def runBridgeOp (inp out : Json) : Json :=
       | .error _ => ([], []))
     let msgs := jstrs out "messages"
     let nospace := jS out "nospace"
+    -- through ActionCobra with a word under the cursor: what is served is compared on the candidates that continue that word
+    let typed := jS inp "typed"
+    let got := got.filter (fun p => Str.hasPrefix p.1 typed)
     let names := (got.map (·.1))
     let srt (l : List Str) := sortBy Str.lt l
     let S (s : String) := s.toList
     -- the scratch directory: a.go b.txt d/ ; d/: x.go y.md sub/
-    let top : List Str := [S "a.go", S "b.txt", S "d/"]
+    -- the listing the typed word denotes: the scratch directory itself, or `d/`
+    let inD := Str.hasPrefix typed (S "d/")
+    let top : List Str := (if inD then [S "d/x.go", S "d/y.md", S "d/sub/"] else [S "a.go", S "b.txt", S "d/"]).filter (fun n => Str.hasPrefix n typed)
     let expectNames : Option (List Str) :=
       match kind with
       | .error => some []
       | .files => some top
       | .fileExt exts => some (top.filter (fun n => Str.hasSuffix n ['/'] || exts.isEmpty || exts.any (fun e => Str.hasSuffix n e)))
-      | .dirs none => some [S "d/"]
-      | .dirs (some c) => if c == S "d" then some [S "sub/"] else if c == S "d/sub" then some [] else none
-      | .values vs => some (vs.map (·.1))
+      | .dirs none => some (top.filter (fun n => Str.hasSuffix n ['/']))
+      | .dirs (some c) =>
+        -- the directory named by the completion function is listed, the typed word is relative to it
+        if c == S "d" then some ([S "sub/", S "x.go", S "y.md"].filter (fun n => Str.hasSuffix n ['/'] && Str.hasPrefix n typed))
+        else if c == S "d/sub" then some [] else none
+      | .values vs => some ((vs.map (·.1)).filter (fun n => Str.hasPrefix n typed))
     let kindOk :=
       match kind, expectNames with
       | .error, _ => !msgs.isEmpty && got.isEmpty
@@ -51,7 +59,7 @@ def runBridgeOp (inp out : Json) : Json :=
       | _, some e => srt names == srt e && msgs.isEmpty
       | _, none => true
     let descOk := match kind with
-      | .values vs => srt (got.map (fun p => p.1 ++ ['\t'] ++ p.2)) == srt (vs.map (fun p => p.1 ++ ['\t'] ++ p.2))
+      | .values vs => srt (got.map (fun p => p.1 ++ ['\t'] ++ p.2)) == srt ((vs.filter (fun p => Str.hasPrefix p.1 typed)).map (fun p => p.1 ++ ['\t'] ++ p.2))
       | _ => true
     let nsOk := match kind with
       | .error => true
